@@ -28,10 +28,10 @@ func (t *recTx) Set(key, value []byte) error {
 	return nil
 }
 func (t *recTx) Get(key []byte) ([]byte, error)            { return nil, nil }
-func (t *recTx) Delete(key []byte) error                  { return nil }
+func (t *recTx) Delete(key []byte) error                   { return nil }
 func (t *recTx) Cursor(forward bool) (store.Cursor, error) { return nil, fmt.Errorf("no cursor") }
-func (t *recTx) Commit() error                            { return nil }
-func (t *recTx) Rollback() error                          { return nil }
+func (t *recTx) Commit() error                             { return nil }
+func (t *recTx) Rollback() error                           { return nil }
 
 const fixedDocID = "00000000-0000-4000-8000-000000000000"
 
